@@ -284,8 +284,20 @@ static void end_zero_case(Rng& rng, uint64_t)
 	double w = std::max(std::fabs(r), 1e-3) * rng.loguni(1e-6, 1e3);
 	bool left = rng.coin();
 	double lo = left ? r : r - w, hi = left ? r + w : r;
-	int k	  = rng.irange(1, 3);
-	auto f	  = [r, k](double x) { double d = x - r; return k == 1 ? d : k == 2 ? d * std::fabs(d) : d * d * d; };
+	int k	  = rng.irange(1, 5);
+	// k = 4, 5: the value at the zero end is a negative zero (-(r - x) h(x) with h > 0 resp. with a further root inside the bracket)
+	double r2 = left ? r + 0.37 * w : r - 0.37 * w;
+	auto f	  = [r, k, r2, left](double x) {
+		double d = x - r;
+		switch(k)
+		{
+			case 1: return d;
+			case 2: return d * std::fabs(d);
+			case 3: return d * d * d;
+			case 4: return -(r - x) * (1.0 + 0.5 * std::sin(x));
+			default: return -(r - x) * (left ? (r2 - x) : (x - r2));
+		}
+	};
 	bool swapped = rng.coin();
 	set_params(J().d("zero_at", r).d("lo", lo).d("hi", hi).i("swapped", swapped).i("power", k));
 	hash_param(lo), hash_param(hi);
@@ -338,6 +350,11 @@ static void witness_case(Rng&, uint64_t i)
 		{"1e-200*(3x-1) on [0,1]", [](double x) { return 1e-200 * (3 * x - 1); }, 0.0, 1.0, 1e-6},
 		{"1e200*(x^3-2) on [0,5]", [](double x) { return 1e200 * (x * x * x - 2); }, 0.0, 5.0, 1e-9},
 		{"1e-170*(x^20-1e-5) on [1e-10,1e3]", [](double x) { return 1e-170 * (std::pow(x, 20.0) - 1e-5); }, 1e-10, 1e3, 1e-7},
+		// brackets whose width is not representable (x2 - x1 overflows): "all brackets [a,b] ... and all widths"
+		{"step at 3e289 on [-1e308,1e308]", [](double x) { return std::atan((x - 3e289) * 1e-285); }, -1e308, 1e308, 1e285},
+		// (a saturating function on such a bracket is bisected at best: the accuracy must be within 2^90 of the width or the library's cap of 100 iterations
+		// decides - stated as an assumption of this check)
+		{"atan(x+2e5)-style step at 2e290 on [1.6e308,-4e307] (reversed)", [](double x) { return std::atan((x - 2e290) * 1e-285); }, 1.6e308, -4e307, 1e285},
 	};
 	if(i >= ws.size())
 		return;
@@ -345,15 +362,29 @@ static void witness_case(Rng&, uint64_t i)
 	set_params(J().str("witness", w.name).d("lo", w.lo).d("hi", w.hi).d("accuracy", w.acc));
 	mark_nontrivial();
 	hash_param_u(i);
-	double r  = Find_Root(w.f, w.lo, w.hi, w.acc);
-	double a = std::max(w.lo, r - w.acc), b = std::min(w.hi, r + w.acc);
+	double xlo = std::min(w.lo, w.hi), xhi = std::max(w.lo, w.hi);
+	bool outside = false;
+	uint64_t evals = 0;
+	std::function<double(double)> traced = [&](double x) {
+		evals++;
+		if(!(x >= xlo && x <= xhi))
+			outside = true;
+		return w.f(x);
+	};
+	double r;
+	{
+		BudgetGuard g(5000);
+		r = Find_Root(traced, w.lo, w.hi, w.acc);
+	}
+	require("evaluations-inside-bracket", !outside, [&] { return J().str("witness", w.name).i("evaluations", (long long) evals); });
+	double a = std::max(xlo, r - w.acc), b = std::min(xhi, r + w.acc);
 	bool ok	  = w.f(r) == 0.0 || w.f(a) == 0.0 || w.f(b) == 0.0 || ((w.f(a) < 0.0) != (w.f(b) < 0.0));
 	require("sign-change-within-accuracy", ok, [&] { return J().d("returned", r).d("f(r-acc)", w.f(a)).d("f(r+acc)", w.f(b)); }, "D12-witness");
 }
 
 static void setup()
 {
-	add_generator("witness", 7, witness_case);
+	add_generator("witness", 9, witness_case);
 	add_generator("roots", ctx().count(1000000, 160000000), root_case);
 	add_generator("end_zero", ctx().count(10000, 800000), end_zero_case);
 	add_generator("reject", ctx().count(1500, 80000), reject_case);
